@@ -427,6 +427,10 @@ func progCtxCommon(ctx *plush.Context, env *progEnv) {
 	ctx.Set("mp", map[string]int{"a": 1, "b": 2, "c": 3})
 	ctx.Set("hh", map[string]interface{}{"k": "hv"})
 	ctx.Set("tt", newT("tee"))
+	tn := newT("tn")
+	nx := newT("next")
+	tn.Next = &nx
+	ctx.Set("tn", tn)
 	ctx.Set("up", func(s string) string { return strings.ToUpper(s) })
 	ctx.Set("val", func(id string, v interface{}) interface{} {
 		if env != nil {
